@@ -97,6 +97,17 @@ Definition new_val (nvals : nat) (st : pv) (best : option val) (wb : list peer) 
      pv_out := if better then v :: pv_out st else pv_out st;
      pv_aborted := Nat.ltb 0 nvals && Nat.ltb nvals n |}.
 
+(* routing.go:225-265 processValues, fullrt/dht.go:788-829 (the same text).
+   Ties: the comparison is Select(key, [best; v]) and only index 1 makes v the
+   new best.  A validator that ranks two byte-different values equally returns
+   the index of the FIRST of the best-ranked entries (go-libp2p-record: ipns,
+   pk, the namespaced validator), i.e. 0 = the current best.  So a value that
+   merely ties with the best takes the `sel != 1` branch: it is counted
+   (newVal(ctx, v, false): numResponses++ and the quorum test), it is NOT sent
+   on the out channel, best and peersWithBest are left as they are -- the
+   sender of the tied value is NOT added to peersWithBest (only a
+   byte-identical copy is), so it is among the peers that receive the
+   corrective put of the best value at the end ([fixup_targets]). *)
 Definition pv_step (nvals : nat) (st : pv) (a : peer * val) : pv :=
   if pv_aborted st then st
   else
@@ -115,6 +126,18 @@ Definition pv_step (nvals : nat) (st : pv) (a : peer * val) : pv :=
 
 Definition process_values (nvals : nat) (arrivals : list (peer * val)) : pv :=
   fold_left (pv_step nvals) arrivals pv_init.
+
+(* routing.go:171-191, fullrt/dht.go:737-760: after the search, unless it found
+   nothing or was stopped by the quorum, the best value is put to every peer
+   of the lookup result ([closest]: the K closest peers the lookup ended with)
+   that is not in peersWithBest *)
+Definition fixup_targets (closest : list peer) (st : pv) : list peer :=
+  match pv_best st with
+  | None => []
+  | Some _ =>
+      if pv_aborted st then []
+      else filter (fun p => negb (existsb (N.eqb p) (pv_with_best st))) closest
+  end.
 
 (* SearchValue: the values on the returned channel, oldest first *)
 Definition search_std (self : peer) (local : option val) (resps : list (peer * resp)) (nvals : nat) : list val :=
@@ -149,6 +172,13 @@ Definition dual_get_value (wan lan : option val) : option val :=
   end.
 
 End Search.
+
+(* ---- a Select induced by a rank --------------------------------------------------
+   The convention of the go-libp2p-record validators: Select returns the index
+   of the FIRST entry among those of the highest rank.  On two entries: 1 iff
+   the second is ranked strictly higher, 0 otherwise (in particular on a tie). *)
+Definition rank_sel (rank : vkey -> val -> N) (kk : vkey) (a b : val) : option nat :=
+  Some (if N.ltb (rank kk a) (rank kk b) then 1%nat else 0%nat).
 
 (* ---- GetPublicKey ------------------------------------------------------------- *)
 Section PubKey.
@@ -193,7 +223,11 @@ End PubKey.
 (* ---- the validator of the correspondence check -------------------------------------
    value = seq + 2^8 flags + 2^16 expiry; valid while now < expiry and flag bit 0
    is clear; Select fails when flag bit 1 is set on either value; the higher
-   sequence number wins, the first argument wins ties. *)
+   sequence number wins, the first argument wins ties.  Flag bits 2-7 (the
+   "tag") and the expiry are looked at by neither: values with the same
+   sequence number and different tags are byte-different, equally valid and
+   ranked equally ([c_rank]). *)
+Definition c_rank (kk : vkey) (v : val) : N := v mod 256.
 Definition c_seq (v : val) : N := v mod 256.
 Definition c_flags (v : val) : N := (v / 256) mod 256.
 Definition c_expiry (v : val) : N := v / 65536.
